@@ -208,6 +208,55 @@ impl Gf {
     }
 
     /// Hankel leading minor H_v = [S_{i+j+1}] (0-based i,j < v) of syndromes S_1.. (syn[0] = S_1).
+    /// A non-zero vector x (length `cols`) with M x = 0 for the `rows` x `cols` matrix `m` (row-major), if the
+    /// columns are linearly dependent; None if M has full column rank.
+    pub fn kernel_vector(&self, m: &[u8], rows: usize, cols: usize) -> Option<Vec<u8>> {
+        let mut a = m.to_vec();
+        let mut pivot_col_of_row: Vec<usize> = Vec::new();
+        let mut is_pivot = vec![false; cols];
+        let mut r = 0usize;
+        for c in 0..cols {
+            if r >= rows {
+                break;
+            }
+            let piv = match (r..rows).find(|i| a[i * cols + c] != 0) {
+                Some(p) => p,
+                None => continue,
+            };
+            if piv != r {
+                for j in 0..cols {
+                    a.swap(r * cols + j, piv * cols + j);
+                }
+            }
+            let pinv = self.inv(a[r * cols + c]);
+            for j in 0..cols {
+                a[r * cols + j] = self.mul(a[r * cols + j], pinv);
+            }
+            for i in 0..rows {
+                if i != r {
+                    let f = a[i * cols + c];
+                    if f != 0 {
+                        for j in 0..cols {
+                            let v = self.mul(f, a[r * cols + j]);
+                            a[i * cols + j] ^= v;
+                        }
+                    }
+                }
+            }
+            pivot_col_of_row.push(c);
+            is_pivot[c] = true;
+            r += 1;
+        }
+        let free = (0..cols).find(|c| !is_pivot[*c])?;
+        let mut x = vec![0u8; cols];
+        x[free] = 1;
+        for (row, pc) in pivot_col_of_row.iter().enumerate() {
+            // x[pc] + a[row][free] * 1 = 0 (characteristic 2)
+            x[*pc] = a[row * cols + free];
+        }
+        Some(x)
+    }
+
     pub fn hankel_det(&self, syn: &[u8], v: usize) -> u8 {
         let mut m = vec![0u8; v * v];
         for i in 0..v {
